@@ -60,6 +60,17 @@ def run(ctx: core.Ctx):
                               "tendon_fixed", "gravcomp"), maxfeat=6, integrators=("Euler", "implicitfast"), cones=("pyramidal", "elliptic"), qclasses=("near", "zero"), vclasses=("rand", "zero"))
   ctx.traces_validated = len(recs)
   parity.run(ctx, __name__, "compare", recs, nworld=2, opts={"tol": 2e-2, "vscale": 0.3}, what="inverse dynamics does not return the applied forces")
+  # unconstrained models at LARGE velocities with velocity-dependent passive forces: the discrete-time correction of the Euler / implicitfast
+  # step (derivative of polynomial joint and tendon damping, armature) is then far above the solver's residual
+  fast = family.sample(ctx, n // 2, seed_off=126, maxbody=4, joints=c05.JOINTS, geoms=c05.GEOMS,
+                       feats=("damper", "poly", "spring", "armature", "act_motor", "applied", "invdiscrete", "tendon_fixed", "tendon_spring"), maxfeat=6,
+                       integrators=("Euler", "implicitfast"), cones=("pyramidal",), qclasses=("near",), vclasses=("rand",))
+  fast = [x for x in fast if "invdiscrete" in x["c"]["feats"] and "damper" in x["c"]["feats"]]
+  ctx.traces_validated += len(fast)
+  ctx.extra["discrete_inverse_large_velocity_cases"] = len(fast)
+  if len(fast) < 5:
+    raise RuntimeError("vacuous: too few discrete-inverse configurations with damping")
+  parity.run(ctx, __name__, "compare", fast, nworld=2, opts={"tol": 2e-2, "vscale": 3.0}, what="inverse dynamics does not return the applied forces")
   ctx.assumptions += ["tolerance 2e-2 (3e-2 discrete) relative to the largest constraint / bias / passive force: the forward solver's float32 residual"]
 
 
